@@ -533,6 +533,19 @@ def rule_pruning_in_place(rep: Report, repo: Repo, rule: str) -> None:
             if isinstance(n, ast.Assign) and any(isinstance(t, ast.Subscript) and norm(t.value) == dm.dirs_var
                                                  and isinstance(t.slice, ast.Slice) for t in n.targets):
                 prunes.append((i, n))
+    # rebinding the directory list to a filtered copy prunes nothing for os.walk
+    for i, st in enumerate(w.body):
+        for n in [st] + list(walk_no_nested(st)):
+            if isinstance(n, ast.Assign) and any(isinstance(t, ast.Name) and t.id == dm.dirs_var for t in n.targets):
+                v = n.value
+                preserving = isinstance(v, ast.Call) and call_name(v) in ("sorted", "list", "copy.copy", "tuple", "reversed") \
+                    and v.args and norm(v.args[0]) == dm.dirs_var
+                preserving = preserving or (isinstance(v, ast.Subscript) and norm(v.value) == dm.dirs_var and isinstance(v.slice, ast.Slice)
+                                            and v.slice.lower is None and v.slice.upper is None)
+                rep.check(preserving, rule, f"{MOD}:document", norm(n)[:80],
+                          f"`{dm.dirs_var}` is rebound to a filtered list: directories dropped this way are still descended by os.walk, "
+                          f"so their sub-directories are processed although the directory was excluded",
+                          witness="-r with a CMake-less directory that has a CMake-bearing sub-directory")
     rep.check(bool(prunes), rule, f"{MOD}:document", f"pruning of {dm.dirs_var}",
               "the directory list yielded by os.walk is never pruned: excluded directories are descended into")
     for i, n in prunes:
